@@ -331,6 +331,10 @@ func (b *Builder) Pair(depth int) (*spec.T, *spec.T) {
 	if b.O.Exotic {
 		choices = append(choices, choice{"exotic", 5})
 	}
+	if b.O.Fallible && depth > 0 {
+		// error locations are made of fields, indices and keys: more containers above the functions
+		choices = append(choices, choice{"map", 10}, choice{"slice", 8}, choice{"extend", 10})
+	}
 	if b.O.Custom {
 		choices = append(choices, choice{"extend", 10})
 		if len(b.extPairs) > 0 {
